@@ -34,6 +34,7 @@ EXPLANATION = (
     "KEYS-1 (non-interference): trial.optimize rewrites no wave_data key that a propagation-intermediates "
     "builder reads (today it may only replace 'mo_coeff'; 'rdm1' drives the mean-field shift of the plain "
     "and of the AD runs alike). "
+    ' SYM-1: the Fock matrix used by the differentiable SCF is symmetric in the one-body matrix it reads (h1 enters as (h1 + h1^T)/2 or through a symmetric contraction), so that the derivative with respect to a symmetric perturbation is the symmetric derivative the driver contracts. '
 )
 NOT_DECIDED = (
     "that JAX's derivative equals a finite difference (a property of JAX given purity), the analytic "
